@@ -72,6 +72,7 @@ class Engine(object):
         self.decided = {}
         self.model = None
         self.root_prefix = None
+        self.fast_fail = False
         S.reset_atoms()
         ST.engine = self
 
@@ -261,6 +262,7 @@ class Engine(object):
     # -- queries on the current path ----------------------------------------------
     def query(self, neg_claim, timeout_ms=None):
         """Is pc /\\ neg_claim satisfiable?  Returns ('unsat'|'sat'|'unknown', model)."""
+        self.solver.set('timeout', self.timeout_ms)
         if timeout_ms:
             self.solver.set('timeout', timeout_ms)
         self.solver.push()
@@ -277,6 +279,9 @@ class Engine(object):
                 self.stats.q_unsat += 1
                 return 'unsat', None
             # retry with the nlsat tactic on the flattened formula
+            if self.fast_fail:
+                self.stats.q_unknown += 1
+                return 'unknown', None
             r2, m2 = self._retry_nlsat(neg_claim, timeout_ms or self.timeout_ms)
             if r2 == 'unknown':
                 self.stats.q_unknown += 1
